@@ -24,11 +24,11 @@ mod common;
 use common::*;
 
 /// Sequential reference: pool size 1 means the library never splits.
-fn sequential(c: &Case, sentinel: u8) -> Vec<u8> {
+fn sequential(c: &Case, sentinel: u8, kind: &DstKind) -> Vec<u8> {
     rc::MODE.store(0, Ordering::SeqCst);
     rc::NUM_THREADS.store(1, Ordering::SeqCst);
     rc::reset();
-    let out = run_body_pt(c, &DstKind::Typed, sentinel, None);
+    let out = run_body_pt(c, &kind.reference(), sentinel, None);
     assert_eq!(rc::REGIONS.load(Ordering::SeqCst), 0, "pool size 1 must not split");
     out
 }
@@ -58,7 +58,8 @@ fn loom_one(spec: &Value) -> Value {
     let pb = spec["preemptions"].as_u64().map(|v| v as usize);
     let tracked = spec["tracked"].as_bool().unwrap();
     let row_points = spec["row_points"].as_bool().unwrap_or(false);
-    let expected = sequential(&c, 0x5A);
+    let cropped = spec["cropped"].as_bool().unwrap_or(false);
+    let expected = sequential(&c, 0x5A, &if cropped { DstKind::CroppedTyped } else { DstKind::Typed });
     let executions = Arc::new(AtomicUsize::new(0));
     let mismatches = Arc::new(Mutex::new(Vec::<String>::new()));
     let bands_seen = Arc::new(AtomicUsize::new(0));
@@ -75,7 +76,12 @@ fn loom_one(spec: &Value) -> Value {
     let t0 = std::time::Instant::now();
     b.check(move || {
         rc::reset();
-        let kind = if tracked { DstKind::Tracked(mode, row_points) } else { DstKind::Typed };
+        let kind = match (tracked, cropped) {
+            (true, false) => DstKind::Tracked(mode, row_points),
+            (true, true) => DstKind::CroppedTracked(mode, row_points),
+            (false, false) => DstKind::Typed,
+            (false, true) => DstKind::CroppedTyped,
+        };
         let out = run_body_pt(&c, &kind, 0x5A, None);
         e2.fetch_add(1, Ordering::SeqCst);
         let ex = rc::EXECUTED.lock().unwrap().clone();
@@ -160,13 +166,20 @@ fn loom_specs(thorough: bool) -> Vec<Value> {
                         if !thorough && !tracked && (n, w) != (3, 2) && (n, w) != (3, 3) {
                             continue;
                         }
-                        let mut s = case_to(&c);
-                        s["n"] = json!(n);
-                        s["workers"] = json!(w);
-                        s["preemptions"] = json!(if thorough { 3 } else { 2 });
-                        s["tracked"] = json!(tracked);
-                        s["max_secs"] = json!(if thorough { 240 } else { 30 });
-                        v.push(s);
+                        for cropped in [false, true] {
+                            // cropped destinations: one (n, w) combination per body in the quick tier
+                            if cropped && !thorough && (n, w) != (3, 2) {
+                                continue;
+                            }
+                            let mut s = case_to(&c);
+                            s["n"] = json!(n);
+                            s["workers"] = json!(w);
+                            s["preemptions"] = json!(if thorough { 3 } else { 2 });
+                            s["tracked"] = json!(tracked);
+                            s["cropped"] = json!(cropped);
+                            s["max_secs"] = json!(if thorough { 240 } else { 30 });
+                            v.push(s);
+                        }
                     }
                 }
             }
@@ -196,8 +209,16 @@ struct WriteSets {
 }
 
 /// Returns (violations, number of regions, bands)
-fn serial_case(c: &Case, n: usize, tracked_default_split: bool, ctx: &mut Ctx) {
-    let expected = match guarded(|| sequential(c, 0x5A)) {
+fn serial_case(c: &Case, n: usize, variant: usize, ctx: &mut Ctx) {
+    let tracked_default_split = variant % 2 == 1;
+    let cropped = variant / 2 == 1;
+    let kind = || match (tracked_default_split, cropped) {
+        (false, false) => DstKind::Typed,
+        (true, false) => DstKind::Tracked(Track::Off, false),
+        (false, true) => DstKind::CroppedTyped,
+        (true, true) => DstKind::CroppedTracked(Track::Off, false),
+    };
+    let expected = match guarded(|| sequential(c, 0x5A, &kind())) {
         Ok(e) => e,
         Err((loc, msg)) => {
             ctx.ops += 1;
@@ -210,8 +231,7 @@ fn serial_case(c: &Case, n: usize, tracked_default_split: bool, ctx: &mut Ctx) {
     // find the band structure with the identity order first
     rc::ORDER.store(0, Ordering::SeqCst);
     rc::reset();
-    let kind = || if tracked_default_split { DstKind::Tracked(Track::Off, false) } else { DstKind::Typed };
-    let det = |extra: Value| json!({"case": case_to(c), "pool_size": n, "default_split_path": tracked_default_split, "more": extra});
+    let det = |extra: Value| json!({"case": case_to(c), "pool_size": n, "default_split_path": tracked_default_split, "cropped_destination": cropped, "variant": variant, "more": extra});
     let sig = |what: &str| format!("C08|serial|{:?}|{:?}|{}", c.body, c.pt, what);
     let r = guarded(|| run_body_pt(c, &kind(), 0x5A, None));
     ctx.ops += 1;
@@ -260,7 +280,8 @@ fn serial_case(c: &Case, n: usize, tracked_default_split: bool, ctx: &mut Ctx) {
     // write sets: snapshot the destination around every band, under two sentinels
     if c.dw as usize * c.dh as usize <= 70000 {
         let ps = psize(c.pt);
-        let npx = c.dw as usize * c.dh as usize;
+        let (bw, bh) = if cropped { (c.dw + CROP_PLACE.0 + CROP_PLACE.2, c.dh + CROP_PLACE.1 + CROP_PLACE.3) } else { (c.dw, c.dh) };
+        let npx = bw as usize * bh as usize;
         // written[region][band] = set of pixel indices
         let mut written: Vec<Vec<Vec<bool>>> = structure.iter().map(|b| vec![vec![false; npx]; *b]).collect();
         for sentinel in [0x5Au8, 0xA5] {
@@ -285,8 +306,30 @@ fn serial_case(c: &Case, n: usize, tracked_default_split: bool, ctx: &mut Ctx) {
             ctx.ops += 1;
             let Ok(out_s) = r else { return };
             // the result must not depend on what the destination held before (every pixel assigned)
-            if out_s != expected {
-                ctx.violation(sig("a destination pixel keeps its previous content (not written by any band or pass)"), || det(json!({"sentinel": sentinel, "bands_per_region": structure})));
+            // expected bytes under this sentinel: the view's pixels from the reference run, the
+            // parent's margins (cropped destinations) hold the sentinel of this run
+            let mut exp_s = expected.clone();
+            if cropped && sentinel != 0x5A {
+                let other = match guarded(|| sequential(c, sentinel, &kind())) {
+                    Ok(o) => o,
+                    Err(_) => return,
+                };
+                let (pl, pt, _, _) = CROP_PLACE;
+                for y in 0..bh as usize {
+                    for x in 0..bw as usize {
+                        let inside = x >= pl as usize && x < (pl + c.dw) as usize && y >= pt as usize && y < (pt + c.dh) as usize;
+                        if !inside {
+                            let o = (y * bw as usize + x) * ps;
+                            exp_s[o..o + ps].copy_from_slice(&other[o..o + ps]);
+                        }
+                    }
+                }
+                rc::MODE.store(0, Ordering::SeqCst);
+                rc::NUM_THREADS.store(n, Ordering::SeqCst);
+                rc::ORDER.store(0, Ordering::SeqCst);
+            }
+            if out_s != exp_s {
+                ctx.violation(sig("a destination pixel keeps its previous content, or a pixel outside the destination changed"), || det(json!({"sentinel": sentinel, "bands_per_region": structure})));
                 return;
             }
             let w = ws.lock().unwrap();
@@ -310,7 +353,7 @@ fn serial_case(c: &Case, n: usize, tracked_default_split: bool, ctx: &mut Ctx) {
                 for px in 0..npx {
                     if set[px] {
                         if owner[px] != usize::MAX {
-                            let (x, y) = (px % c.dw as usize, px / c.dw as usize);
+                            let (x, y) = (px % bw as usize, px / bw as usize);
                             ctx.violation(sig("two bands of one region wrote the same destination pixel"), || det(json!({"region": ri, "bands": [owner[px], bi], "pixel": [x, y], "bands_per_region": structure})));
                             return;
                         }
@@ -374,7 +417,7 @@ fn main() {
         let d: Value = serde_json::from_str(&args[2]).expect("case json");
         let c = case_from(&d["case"]);
         let mut ctx = Ctx::new("serial");
-        serial_case(&c, d["pool_size"].as_u64().unwrap_or(2) as usize, d["default_split_path"].as_bool().unwrap_or(false), &mut ctx);
+        serial_case(&c, d["pool_size"].as_u64().unwrap_or(2) as usize, d["variant"].as_u64().unwrap_or(0) as usize, &mut ctx);
         let out: Vec<Value> = ctx.viols.iter().map(|v| json!({"sig": v.sig, "detail": v.detail})).collect();
         println!("{}", json!({"violations": out}));
         return;
@@ -524,7 +567,7 @@ fn main() {
             shapes.push((2, big));
         }
         let simd = if CpuExtensions::Avx2.is_supported() { 2 } else { 0 };
-        let mut cases: Vec<(Case, usize, bool)> = vec![];
+        let mut cases: Vec<(Case, usize, usize)> = vec![];
         for &(dw, dh) in shapes.iter() {
             for &body in BODIES.iter() {
                 for (pi, &pt) in PTS.iter().enumerate() {
@@ -540,7 +583,7 @@ fn main() {
                         if huge && !matches!(n, 1 | 2 | 3 | 32 | 1000) {
                             continue;
                         }
-                        cases.push((c, n, (n + dw as usize) % 2 == 0));
+                        cases.push((c, n, (n + dw as usize + dh as usize) % 4));
                     }
                 }
             }
@@ -550,15 +593,15 @@ fn main() {
         let mut ctx = Ctx::new("serial");
         let (si, sk) = shard.unwrap();
         let mut mine = 0u64;
-        for (i, (c, n, tracked)) in cases.iter().enumerate() {
+        for (i, (c, n, variant)) in cases.iter().enumerate() {
             if i % sk != si {
                 continue;
             }
             mine += 1;
             ctx.idx = i as u64;
-            serial_case(c, *n, *tracked, &mut ctx);
+            serial_case(c, *n, *variant, &mut ctx);
             if i == 0 || i == cases.len() / 2 || i == cases.len() - 1 {
-                ctx.samples.push(json!({"serial_case": case_to(c), "pool_size": n, "default_split_path": tracked}));
+                ctx.samples.push(json!({"serial_case": case_to(c), "pool_size": n, "destination_variant": variant}));
             }
         }
         let mut rep = Report::default();
